@@ -814,3 +814,7 @@ def run(ck):
         rule_cd(ck, R, eng, ps)
         rule_ef(ck, R, eng, ps)
     rule_b(ck, R)
+    ck.rule('C04.h', 'a table is accepted exactly when every default is a value the checked setter accepts: the setter\'s own acceptance - serialiser / deserialiser per type incl. the float classes, validators - is what C01.a-c decide (re-evaluated): a well-formed table with a representable default is not refused, an unrepresentable default is')
+    from .common import reevaluate
+    reevaluate(ck, 'C04.h', 'c01', lambda r, k: r in ('C01.a', 'C01.b', 'C01.c'),
+               'defaults are loaded with register_set: what it accepts per type (value image, float classes, validator kinds) decides INVALID_DEFAULT')
